@@ -65,6 +65,7 @@ import (
 	"runtime"
 	"sync"
 	"time"
+	"unsafe"
 )
 
 type zzverifEvent struct {
@@ -78,7 +79,28 @@ var (
 	zzverifOn   bool
 	zzverifTids = map[uint64]int{}
 	zzverifBase = time.Now().Add(-time.Second)
+	zzverifPtrs = map[unsafe.Pointer]int{}
 )
+
+// zzverifPid names a pointer by the order of first sight since VerifEvStart ("nil", "p0", "p1", …): pointer
+// IDENTITY without addresses (the map keeps the object alive, so a number is never reused).  Must be called
+// with zzverifG held.
+func zzverifPid(p unsafe.Pointer) string {
+	if p == nil {
+		return "nil"
+	}
+	if !zzverifOn {
+		return "_"
+	}
+	n, ok := zzverifPtrs[p]
+	if !ok {
+		n = len(zzverifPtrs)
+		zzverifPtrs[p] = n
+	}
+	return fmt.Sprintf("p%%d", n)
+}
+
+func zzverifAddr[T any](p *T) unsafe.Pointer { return unsafe.Pointer(p) }
 
 // VerifEvClock reads the monotonic clock (ns since one second before VerifEvStart) INSIDE the log mutex
 // and, if text is not empty, appends the entry "<text>@<reading>" at that very position of the log: the
@@ -117,6 +139,7 @@ func VerifEvStart() {
 	zzverifG.Lock()
 	zzverifLog = zzverifLog[:0]
 	zzverifTids = map[uint64]int{}
+	zzverifPtrs = map[unsafe.Pointer]int{}
 	zzverifBase = time.Now().Add(-time.Second)
 	zzverifOn = true
 	zzverifG.Unlock()
@@ -126,6 +149,7 @@ func VerifEvStop() []string {
 	zzverifG.Lock()
 	defer zzverifG.Unlock()
 	zzverifOn = false
+	zzverifPtrs = map[unsafe.Pointer]int{}
 	out := make([]string, 0, len(zzverifLog))
 	for _, e := range zzverifLog {
 		if t, ok := zzverifTids[e.gid]; ok {
@@ -168,6 +192,8 @@ func zzverifFmt(v any) string {
 		return "false"
 	case int, int8, int16, int32, int64, uint, uint8, uint16, uint32, uint64:
 		return fmt.Sprint(x)
+	case unsafe.Pointer:
+		return zzverifPid(x)
 	}
 	return "_"
 }
@@ -329,6 +355,16 @@ func zzverifAfterS(site string, res string) {
 	zzverifAppend(site, res)
 	zzverifG.Unlock()
 }
+// atomic.LoadPointer(&x.f) / atomic.CompareAndSwapPointer(&x.f, old, new): the identities of the word
+// operated on, of the pointer read, of the expected and of the new pointer are part of the event.
+func zzverifInPL(site string, at unsafe.Pointer, v unsafe.Pointer) unsafe.Pointer {
+	zzverifAppend(site, "v="+zzverifPid(v)+",at="+zzverifPid(at))
+	return v
+}
+func zzverifInPC(site string, at unsafe.Pointer, ok bool, old, new unsafe.Pointer) bool {
+	zzverifAppend(site, "ok="+zzverifFmt(ok)+",old="+zzverifPid(old)+",new="+zzverifPid(new)+",at="+zzverifPid(at))
+	return ok
+}
 func zzverifInV2[A, B any](site string, a A, b B) (A, B) {
 	zzverifAppend(site, zzverifFmt(any(a))+","+zzverifFmt(any(b)))
 	return a, b
@@ -344,6 +380,8 @@ type inst struct {
 	snap  bool // the receiver type has zzverifSnap
 	obj   bool // the receiver type has zzverifObj (names synchronisation objects that are not receiver fields)
 	fails []string
+	// names of struct fields of the package whose declared type mentions sync/atomic
+	atomicFields map[string]bool
 }
 
 func (in *inst) src(n ast.Node) string {
@@ -471,6 +509,13 @@ func (in *inst) classify(c *ast.CallExpr) (kind, string) {
 	}
 	// (a local is only trusted with the Try… methods, and only where objects can be named: `l := s.getLock(key); l.TryLock()`)
 	if m, ok := instantMethods[sel.Sel.Name]; ok && (isField || isDerived || (isIdent && in.obj && strings.HasPrefix(sel.Sel.Name, "Try"))) {
+		// Load/Store/Add/Swap/CompareAndSwap are atomic actions only on fields whose declared type is a sync/atomic type
+		// (c.List.Add(i, t) of a wrapped list is an ordinary call)
+		if (strings.HasPrefix(m, "Atomic") || m == "CAS") && isField && !isDerived {
+			if fs, ok := sel.X.(*ast.SelectorExpr); !ok || !in.atomicFields[fs.Sel.Name] {
+				return kNone, ""
+			}
+		}
 		return kInstant, m + "(" + in.target(sel.X) + ")"
 	}
 	if m, ok := timerMethods[sel.Sel.Name]; ok && ((sel.Sel.Name == "Stop" && len(c.Args) == 0) || (sel.Sel.Name == "Reset" && len(c.Args) == 1)) {
@@ -528,6 +573,8 @@ func (in *inst) wrapInstants(e *ast.Expr) (found, blocking bool) {
 				if sel, ok := v.Fun.(*ast.SelectorExpr); ok && in.named(sel.X) {
 					sel.X = call("zzverifBind", sel.X)
 					*p = call("zzverifInVO", in.site(site), v, in.objFn())
+				} else if w := in.pointerAtomic(site, v); w != nil {
+					*p = w
 				} else {
 					*p = call("zzverifInV", in.site(site), v)
 				}
@@ -567,6 +614,47 @@ func (in *inst) wrapInstants(e *ast.Expr) (found, blocking bool) {
 	}
 	walk(e)
 	return
+}
+
+// pure: an expression without calls, receives or index expressions (it may be evaluated twice).
+func pure(e ast.Expr) bool {
+	ok := true
+	ast.Inspect(e, func(n ast.Node) bool {
+		switch n.(type) {
+		case *ast.CallExpr, *ast.IndexExpr, *ast.FuncLit:
+			ok = false
+		case *ast.UnaryExpr:
+			if n.(*ast.UnaryExpr).Op == token.ARROW {
+				ok = false
+			}
+		}
+		return ok
+	})
+	return ok
+}
+
+// pointerAtomic: atomic.LoadPointer(&x.f) and atomic.CompareAndSwapPointer(&x.f, old, new) with pure arguments also log
+// pointer identities (of the word, the value read, the expected and the new value); nil for any other call.
+func (in *inst) pointerAtomic(site string, c *ast.CallExpr) ast.Expr {
+	sel, ok := c.Fun.(*ast.SelectorExpr)
+	if !ok {
+		return nil
+	}
+	if pk, ok := sel.X.(*ast.Ident); !ok || pk.Name != "atomic" {
+		return nil
+	}
+	for _, a := range c.Args {
+		if !pure(a) {
+			return nil
+		}
+	}
+	switch {
+	case sel.Sel.Name == "LoadPointer" && len(c.Args) == 1:
+		return call("zzverifInPL", in.site(site), call("zzverifAddr", c.Args[0]), c)
+	case sel.Sel.Name == "CompareAndSwapPointer" && len(c.Args) == 3:
+		return call("zzverifInPC", in.site(site), call("zzverifAddr", c.Args[0]), c, c.Args[1], c.Args[2])
+	}
+	return nil
 }
 
 // hasInstant reports whether e contains an instant sync call (without rewriting).
@@ -1030,6 +1118,7 @@ func main() {
 		}
 		// receiver types that have a snapshot hook (declared in any file of the package directory)
 		snapTypes := hookTypes(filepath.Dir(path), "zzverifSnap")
+		atomicFields := atomicFieldNames(filepath.Dir(path))
 		objTypes := hookTypes(filepath.Dir(path), "zzverifObj")
 		for _, d := range f.Decls {
 			fd, ok := d.(*ast.FuncDecl)
@@ -1059,7 +1148,7 @@ func main() {
 			if typ != "" {
 				name = typ + "_" + name
 			}
-			in := &inst{fset: fset, fn: name, recv: recv, snap: snapTypes[typ], obj: objTypes[typ] && recv != ""}
+			in := &inst{fset: fset, fn: name, recv: recv, snap: snapTypes[typ], obj: objTypes[typ] && recv != "", atomicFields: atomicFields}
 			in.block(fd.Body)
 			fails = append(fails, in.fails...)
 		}
@@ -1122,6 +1211,47 @@ func hookTypes(dir string, method string) map[string]bool {
 				out[id.Name] = true
 			}
 		}
+	}
+	return out
+}
+
+// atomicFieldNames: the struct fields declared in dir whose type expression mentions the package atomic
+// (atomic.Int32, *atomic.Value, atomic.Pointer[T], …).
+func atomicFieldNames(dir string) map[string]bool {
+	out := map[string]bool{}
+	ents, _ := os.ReadDir(dir)
+	for _, e := range ents {
+		if !strings.HasSuffix(e.Name(), ".go") || strings.HasSuffix(e.Name(), "_test.go") {
+			continue
+		}
+		fset := token.NewFileSet()
+		f, err := parser.ParseFile(fset, filepath.Join(dir, e.Name()), nil, 0)
+		if err != nil {
+			continue
+		}
+		ast.Inspect(f, func(n ast.Node) bool {
+			st, ok := n.(*ast.StructType)
+			if !ok || st.Fields == nil {
+				return true
+			}
+			for _, fld := range st.Fields.List {
+				isAtomic := false
+				ast.Inspect(fld.Type, func(x ast.Node) bool {
+					if se, ok := x.(*ast.SelectorExpr); ok {
+						if id, ok := se.X.(*ast.Ident); ok && id.Name == "atomic" {
+							isAtomic = true
+						}
+					}
+					return !isAtomic
+				})
+				if isAtomic {
+					for _, nm := range fld.Names {
+						out[nm.Name] = true
+					}
+				}
+			}
+			return true
+		})
 	}
 	return out
 }
